@@ -36,7 +36,7 @@ def rule_a(ctx):
 
 
 def rule_b(ctx):
-    poison_rules(ctx, "C18.b", require_tolerant=lambda l: "write_mutex" in l or "HalfLock" in l, floor=4)
+    poison_rules(ctx, "C18.b", require_tolerant=lambda l: "write_mutex" in l or "HalfLock" in l, floor=3)
 
 
 def rule_c(ctx):
